@@ -247,6 +247,15 @@ def run_vh(vh, args, cases, timeout=1800, env=None, hang_is_failure=False, death
         else:
             other.append(j)
     if summary is None:
+        import signal as _sig
+        crashed = p.returncode is not None and -p.returncode in (_sig.SIGABRT, _sig.SIGSEGV, _sig.SIGBUS, _sig.SIGILL)
+        if crashed:
+            # the harness hosts the library (and its server threads) in-process: abort / segfault is the library crashing
+            # (stack overflow, double free, abort on a poisoned state), never a way the harness itself ends
+            fails.append({"fail": True, "case": 0, "variant": "crashed", "sig": "process hosting the library crashed (%s)" % args[0],
+                          "detail": "the process hosting the library died with signal %d while the harness ran %s: %s" % (-p.returncode, " ".join(args), (p.stderr or "")[-600:])})
+            import collections
+            return fails, collections.defaultdict(int, {"failures": len(fails)}), other
         if death_is_failure and p.returncode is not None and p.returncode < 0:
             fails.append({"fail": True, "case": 0, "variant": "died", "sig": "died " + " ".join(args),
                           "detail": "the process calling into the library was killed by signal %d: %s" % (-p.returncode, p.stderr[-600:])})
